@@ -126,9 +126,8 @@ class LocalLink:
         packet: ll.ControlPdu,
     ):
         if not (receiver_controller := self.find_le_controller(receiver_address)):
-            raise core.InvalidArgumentError(
-                f"Unable to find controller for address {receiver_address}"
-            )
+            logger.warning(f'no controller for {receiver_address}, PDU dropped')
+            return
         asyncio.get_running_loop().call_soon(
             lambda: receiver_controller.on_ll_control_pdu(sender_address, packet)
         )
